@@ -333,9 +333,53 @@ fn stripes(a: &Args, tracer: &Tracer) {
     }
 }
 
+/// A walk over two consecutive 4096-document windows of a buffered union (inputs only; `seq` is used to place the targets):
+/// leave the first bucket of the window (advance / fill_buffer / short seek), seek inside the window over at least one
+/// bucket, go to the end of the window and cross it by advance, then visit the next window at the offsets of the documents
+/// that were skipped - the score read there must be the one of the plain-advance pass.
+fn window_walk(rng: &mut StdRng, seq: &[u32]) -> Vec<Value> {
+    let w0 = seq[0];
+    let mut prog = vec![];
+    match rng.random_range(0..3) {
+        0 => { for _ in 0..rng.random_range(1..4) { prog.push(json!({"op":"fill_buffer"})); } }
+        1 => { for _ in 0..rng.random_range(3..40) { prog.push(json!({"op":"advance"})); } }
+        _ => {}
+    }
+    let a = w0 + rng.random_range(64..1200);
+    prog.push(json!({"op":"seek","t":a}));
+    let b = a + rng.random_range(64..1800);
+    prog.push(json!({"op":"seek","t":b.min(w0 + 4000)}));
+    if rng.random_bool(0.5) {
+        prog.push(json!({"op":"advance"}));
+        prog.push(json!({"op":"seek","t":(b + rng.random_range(64..600)).min(w0 + 4050)}));
+    }
+    // to the end of the window, then across by advance
+    prog.push(json!({"op":"seek","t":w0 + 4096 - rng.random_range(1..40)}));
+    for _ in 0..rng.random_range(2..45) {
+        prog.push(json!({"op":"advance"}));
+    }
+    // the next window starts at the first document at or after w0 + 4096 (only in-window moves were made)
+    let i1 = seq.partition_point(|d| *d < w0 + 4096);
+    if i1 < seq.len() {
+        let w1 = seq[i1];
+        let mut t = w1 + (a - w0);
+        for _ in 0..rng.random_range(4..14) {
+            prog.push(json!({"op":"seek","t":t.min(w1 + 4090)}));
+            if rng.random_bool(0.5) {
+                prog.push(json!({"op":"advance"}));
+            }
+            t += rng.random_range(1..((b - a) / 3).max(2));
+        }
+    }
+    prog
+}
+
 fn gen_prog(rng: &mut StdRng, seq: &[u32], max_doc: u32, maxlen: usize, allow_after_count: bool) -> Vec<Value> {
     // targets are drawn relative to a *predicted* position only to make them interesting; the
     // driver clamps them to the real cursor, and the judge sees what was really called
+    if seq.len() > 200 && seq[seq.len() - 1] - seq[0] > 4600 && rng.random_bool(0.3) {
+        return window_walk(rng, seq);
+    }
     let n = rng.random_range(1..=maxlen);
     let mut prog = vec![];
     let mut pos = 0usize; // rough position in seq
